@@ -9,6 +9,7 @@
   keywords, contents and list-length distributions.
   PiPack: one entry per block, all alike (`PiPack.shape`), so equal block counts give identically shaped indexes
   (`PiPack.shape_indistinguishable`).
+  SSE1: array length, cell lengths, table size and entry lengths are functions of the configuration (`SSE1.shape`).
   CT14: the whole index shape is `CT14.shapeFor cfg ⌈log2 N⌉` (`CT14.shape`).
   ANSS16: the whole index shape is `shapeFor cfg ⌈log2 N⌉` (`ANSS16.shape`): number of tables, entries per table and all
   lengths; the level-table bound that makes the padding sufficient (at most 2^(t+1-j) lists at level j) is part of it.
@@ -19,6 +20,7 @@ import SSEPyVerif.Proofs.Schemes.ChainShape
 import SSEPyVerif.Proofs.Schemes.ChainCfg
 import SSEPyVerif.Proofs.Schemes.ANSS16Shape
 import SSEPyVerif.Proofs.Schemes.CT14Shape
+import SSEPyVerif.Proofs.Schemes.SSE1Shape
 namespace SSEPy.C05
 open SSEPy.Sch SSEPy.Sch.Chain
 
@@ -260,5 +262,34 @@ theorem CT14.shape_indistinguishable (raw : RawCfg) (cfg : CT14Cfg) (hcfg : CT14
     (hN : clog2 db.total = clog2 db'.total) : HT.map shapeOf = HT'.map shapeOf := by
   rw [CT14.shape raw cfg hcfg lv hl K db t t1 HT hs hids hfresh hnd,
     CT14.shape raw cfg hcfg lv hl K' db' u u1 HT' hs' hids' hfresh' hnd', hN]
+
+/-- SSE-1 (schemes/CGKO06/SSE1): THE INDEX SHAPE IS A FUNCTION OF THE CONFIGURATION ONLY — the scheme's leakage names no
+    size parameter, and none shows: for every key, database and tape, once setup has returned, the array has `param_s`
+    cells, every one of the length of one encrypted node (`id ‖ key ‖ address`; cells no node was written to are filled
+    with random strings of exactly that length), and every entry of the look-up table has a `param_l`-byte label and a
+    `⌈log2 s / 8⌉ + k`-byte value; the table has exactly `param_dictionary_size` entries when the labels of the stored
+    keywords are distinct (π is a permutation: `SSE1.gammaInj_of_leaves`) and no random filler label repeats a label
+    (evaluated by the driver on every recorded run).  Keywords, contents, the number of keywords and the list lengths
+    do not show. -/
+theorem SSE1.shape (raw : RawCfg) (cfg : SSE1Cfg) (hcfg : SSE1.cfgBuild raw = .ok cfg) (lv : Leaves) (hl : LeafLaws lv)
+    (h2 : 2 ≤ cfg.log2s) (hl8 : 2 ≤ (cfg.l * 8).toNat) (K1 K2 K3 K4 : Bytes) (db : DB) (t t' : Tape) (edb : SSE1EDB)
+    (hs : SSE1.setup cfg lv [K1, K2, K3, K4] db t = .ok (edb, t'))
+    (hidl : ∀ p ∈ db, ∀ x ∈ p.2, x.length = cfg.idSize.toNat) :
+    edb.A.map List.length = List.replicate cfg.s.toNat (SSE1.nodeLen cfg) ∧
+    (∀ e ∈ edb.T, e.1.length = cfg.l.toNat ∧ e.2.length = cfg.log2sBytes + cfg.k.toNat) ∧
+    ((db.map (·.1)).Nodup → SSE1.GammaInj cfg lv K3 db → db.length ≤ cfg.dictSize.toNat →
+      (drawsLen cfg.l.toNat t).Nodup →
+      (∀ p ∈ db, ∀ g, SSE1.piBytes cfg lv K3 p.1 = .ok g → g ∉ drawsLen cfg.l.toNat t) →
+      edb.T.length = cfg.dictSize.toNat) := by
+  obtain ⟨hlb, _⟩ := SSE1.cfgBuild_ok cfg raw hcfg
+  obtain ⟨hk0, hid0, hout⟩ := SSE1.cfgBuild_shape cfg raw hcfg
+  obtain ⟨a1, a2, a3, a4⟩ := SSE1.setup_shape cfg lv hl.enc_len hlb hl.hmac_len h2 hl8 hk0 hid0 hout K1 K2 K3 K4 db t t' edb hs hidl
+  refine ⟨?_, a3, a4⟩
+  apply List.eq_replicate_iff.mpr
+  refine ⟨by simp [a1], ?_⟩
+  intro x hx
+  simp only [List.mem_map] at hx
+  obtain ⟨c, hc, rfl⟩ := hx
+  exact a2 c hc
 
 end SSEPy.C05
